@@ -80,6 +80,11 @@ CLAIMED = {
   text='Decides structural clauses: error/fatal/usage never return and exit with the constants 1/2; the documented-unsupported features reach a diagnostic; 110 member-declaration cases (bit-field type/width/zero width, named/unnamed, struct and union) are accepted or diagnosed as C11 6.7.2.1 demands; member lvalues inherit the aggregate qualifiers so ++ through const is diagnosed; none of the 264 reference diagnostic sites has been deleted or had its guard inverted. Whether each surviving check tests exactly the condition the standard requires is NOT decided (other properties decide several: C05.c operand constraints, C09 linkage conflicts, C12/C13/C14 malformed tokens).',
   note='Trusts clang 14 front end, lib/eai.py, baseline/diagnostics.json (regenerated only by tools/rebaseline.py after review; rule C10.c tolerates rewording/moving and reports it as drift).',
   design='5/C10'),
+ 'C20': dict(
+  technique='call-graph and AST rules over every function of cproc-qbe (forbidden environment/time/locale/random APIs with a positive witness, pointer-to-integer conversions and %p, hash-table slot iteration, numbering sources, file routes) plus E-AI execution of the nine node constructors to list fields left indeterminate, compared with a reviewed allow-list',
+  text='Decides structural clauses: nothing in cproc-qbe calls an environment-, clock-, locale- or randomness-dependent function (so ctype/strtod/printf are C-locale); no pointer value is converted to an integer, printed, hashed or ordered; only map.c (and one reviewed diagnostic loop) walks table slots; ids come from deterministic counters; each constructor initialises every field outside reviewed variant arms; stdin/file and -o/stdout differ only in the FILE. Uninitialised reads through tagged unions in general, and equality of the self-built compiler, are NOT decided.',
+  note='Trusts clang 14 front end, lib/eai.py, the allow-lists ALLOWED / FORBIDDEN in props/c20.py (each entry carries its reason).',
+  design='5/C20'),
  'C01': dict(
   technique='abstract interpretation (partial evaluation of the lowering functions over the static type/operator descriptor domain) + AST table extraction vs C11/QBE oracle tables',
   text='Decides structural clauses only: the instruction-selection, conversion, load/store, truthiness and bit-field shift tables that every compiled program is lowered through are extracted from the current source by an abstract interpreter and compared exhaustively (over the finite descriptor domain) with oracle tables written from C11 and the QBE manual; sibling switches are checked for exhaustiveness. Semantic equivalence of emitted IL for arbitrary programs is NOT decided.',
